@@ -12,7 +12,7 @@ from ..core import Ctx, Outcome, Violation
 from ..terms import clear_typelib_caches
 
 _N = [0]
-FORMS = ["function", "method", "instance", "class", "closure"]
+FORMS = ["function", "method", "instance", "class", "closure", "method_after_unbound"]
 
 
 def tokens(npos_max, names):
@@ -54,6 +54,10 @@ def build_callable(sig, form, toks):
         src = f"def f({params}):\n    'doc of f'\n    return {ret}\n"
     elif form == "method":
         src = f"class C:\n    def m(self, {params}):\n        'doc of m'\n        return {ret}\nf = C().m\n"
+    elif form == "method_after_unbound":
+        # the same function is first bound through the class (signature with `self`), then through an instance
+        src = (f"class C:\n    def m(self, {params}):\n        'doc of m'\n        return {ret}\n"
+               f"decoy = C.m\ndecoy_self = C()\nf = C().m\n")
     elif form == "instance":
         src = f"class C:\n    def __call__(self, {params}):\n        'doc of call'\n        return {ret}\nf = C()\n"
     elif form == "closure":
@@ -87,12 +91,18 @@ def _get_built(sig, form, entry):
                 d(*[f"a{j}" for j in range(1, 9)])
             except Exception:
                 pass
+        if form == "method_after_unbound":
+            try:
+                d = binding.bind(mod.decoy) if entry == "bind" else binding.wrap(mod.decoy)
+                d(mod.decoy_self, *[f"a{j}" for j in range(1, 9)])
+            except Exception:
+                pass
         try:
             if entry == "bind":
                 g = binding.bind(f)
             else:
                 g = binding.wrap(f)
-                if form in ("function", "method", "closure"):
+                if form in ("function", "method", "closure", "method_after_unbound"):
                     meta = (getattr(g, "__name__", None) == getattr(f, "__name__", None)
                             and getattr(g, "__doc__", None) == getattr(f, "__doc__", None)
                             and getattr(g, "__wrapped__", None) is f)
